@@ -371,6 +371,23 @@ func (st *State) Witnessed() map[SliceRef]bool {
 	return w
 }
 
+// WitnessedByContent closes Witnessed under equality of slice content: a
+// protected slice whose zero-padded bytes equal those of a witnessed slice
+// survives at the very same place (identical files, shared headers).
+func (st *State) WitnessedByContent() map[SliceRef]bool {
+	w := st.Witnessed()
+	have := map[string]bool{}
+	for r := range w {
+		have[string(st.PaddedSlice(r))] = true
+	}
+	for _, r := range st.AllSlices() {
+		if !w[r] && have[string(st.PaddedSlice(r))] {
+			w[r] = true
+		}
+	}
+	return w
+}
+
 // PaddedSlice returns the zero-padded content of a protected slice.
 func (st *State) PaddedSlice(r SliceRef) []byte {
 	s := st.Set.SliceSize
